@@ -37,9 +37,13 @@ def plan(tier, seed):
 
 
 def gen_sig(rng):
-    n = rng.choice([0, 1, 2, 3, 5, 13, 14, 14, 15, 15, 16, 16, 17, 20, 22])
+    n = rng.choice([0, 1, 2, 3, 5, 13, 14, 14, 15, 15, 16, 16, 17, 20, 22, 24, 27])
     kinds = []
+    bool_run = (rng.randrange(14, n - 8), rng.choice([9, 10, 11, 16, 17])) if n >= 24 and rng.random() < .7 else None
     for i in range(n):
+        if bool_run and bool_run[0] <= i < bool_run[0] + bool_run[1]:
+            kinds.append("bool")  # a run of more than eight bools inside the packed tail
+            continue
         k = rng.random()
         if k < .12:
             kinds.append(rng.choice(list(TXN_KINDS)))
